@@ -21,6 +21,8 @@ DIAG = "diagnostic path (arguments of trace! / debug-only instruction trace): de
 OFFS = "byte offsets computed by char_indices()/len() of the same string with start <= end (char_substring_offset / nth); units checked by R15a"
 
 TRIAGE = [
+    (r"^number::approximate$", r"ratio", "arbitrary-precision rationals: the product cannot overflow, and the quotient is formed only in the arm "
+     "whose guard found the divisor's numerator non-zero (the zero-divisor case takes the float arm below it)"),
     (r"^vm::heap::payload$", r"DivisionByZero", "the divisor is size_of::<VCell>(), the size of a non-empty enum: not zero"),
     (r"^marwood_wasm::Marwood::autocomplete$", r"unwrap", "chars().last() of a text tested non-empty in the same condition (short-circuit `||`)", r"Chars.*last"),
     (r"^marwood_wasm::Marwood::eval$", r"index", INV_SPAN),
